@@ -162,7 +162,17 @@ pub fn for_each_value(cfg: &Cfg, tag: &str, f: &ValueCheck<'_>) -> Stats {
     for k in 4..=cfg.pick(5, 6) {
         d.enumerate(&format!("parsed: 'en-' + core alphabet ({} tokens), {k} subtags", core.len()), &core, k, b'-', b"en-");
     }
+    // whatever the library accepts is a reachable value, whether or not it should have been
+    // accepted: prefix-free token sequences and near misses let such inputs in too
+    let full = gen::full_alphabet();
+    for k in 1..=cfg.pick(2, 3) {
+        d.enumerate(&format!("parsed: full boundary alphabet ({} tokens), {k} subtags, no prefix", full.len()), &full, k, b'-', b"");
+    }
+    for k in 3..=cfg.pick(3, 4) {
+        d.enumerate(&format!("parsed: locale alphabet ({} tokens), {k} subtags, no prefix", loc_alpha.len()), &loc_alpha, k, b'-', b"");
+    }
     let n = cfg.pick(200_000, 4_000_000);
+    d.strategy("parsed: G3 near-miss mutations of well-formed locales, the accepted ones (proptest)", &gen::s_near_miss(), cfg.seed, &format!("{tag}-g3"), n / 2, |b| b.clone());
     d.strategy("parsed: G2 well-formed locales (proptest)", &gen::s_ast(), cfg.seed, &format!("{tag}-g2"), n, |a| a.render());
     d.strategy("parsed: G2 long locales (many variants, keywords, private tags; proptest)", &gen::s_locale_long_bytes(), cfg.seed, &format!("{tag}-g2long"), n / 10, |b| b.clone());
     d.strategy("parsed: G2 huge locales (20-150 attributes / keywords / tfields / private tags; proptest)", &gen::s_locale_huge_bytes(), cfg.seed, &format!("{tag}-g2huge"), n / 64, |b| b.clone());
